@@ -190,6 +190,22 @@ def judge_step(ctx, model, oms_list, oms_ids, slots, rq, nb_wl, per_m, before, a
         if exp != N[0] or M[0] != nb_wl * per_m:
             ctx.violation('not-first-fit', f'{where}: got N={N[0]}, M={M[0]}; the lowest feasible centre for M='
                           f'{nb_wl * per_m} is {exp}')
+    # first fit, several slots: a slot whose centre the user left free sits at the lowest position that was free before
+    # the request and is not taken by another slot of the same request (whatever the order in which the slots are placed)
+    if len(N) == len(slots) and len(slots) > 1 and not any(v['mechanism'] is None for v in ctx.violations):
+        for i, ((un, um), n, m) in enumerate(zip(slots, N, M)):
+            if un is not None:
+                continue
+            others = [r for j, r in enumerate(ranges) if j != i]
+            ctx.count('first_fit_checks_multi_slot')
+            for c in model.index:
+                if c + m >= n:
+                    break
+                a, b = c, c + 2 * m - 1
+                if model.range_free(oms_ids, a, b) and not any(a <= d and e <= b for e, d in others):
+                    ctx.violation('not-first-fit', f'{where}: slot {i} (M={m}) placed at N={n} although centre {c + m} was '
+                                  f'free before the request and is not used by its other slots {others}')
+                    break
     # post-state = pre-state + exactly these ranges on exactly the path OMS
     model.assign(oms_ids, ranges)
     for k in range(len(oms_list)):
@@ -305,7 +321,7 @@ def run_synthetic(case, ctx):
         per_m = math.ceil(spacing / 12.5e9)
         nb_wl = G.pick(rng, [1, 1, 2, 3, 4])
         kind = G.pick(rng, ['free', 'free', 'free', 'fixed-nm', 'fixed-m', 'fixed-n', 'multi', 'multi-free-tail',
-                            'insufficient', 'multi-one-infeasible'])
+                            'insufficient', 'multi-one-infeasible', 'multi-free-sized'])
         need = nb_wl * per_m
         cn = rng.randint(model.lo, model.hi)
         if rng.random() < 0.6:
@@ -341,6 +357,14 @@ def run_synthetic(case, ctx):
             if rng.random() < 0.4:
                 # the second slot fixes its width only, and so large that no window of that width exists on the path
                 slots = [(cn, need + per_m), (None, max(per_m, (len(model.index) // 2 // per_m) * per_m))]
+        elif kind == 'multi-free-sized':
+            # several slots of different widths, all without centre: each goes to the lowest place it fits in
+            a = G.pick(rng, [2, 3, 4])
+            nb_wl = a + 1
+            need = nb_wl * per_m
+            slots = [(None, a * per_m), (None, per_m)]
+            if rng.random() < 0.5:
+                slots.reverse()
         elif kind == 'multi-free-tail':
             slots = [(cn, G.pick(rng, [per_m, need, need + per_m, 2 * need])), (None, None)]
         else:
